@@ -49,6 +49,7 @@ Record vopts := {
   o_inactivity : Z;               (* remote_inactivity_timeout, ns *)
   o_wait_for_last_ack : bool;
   o_mtu_probe_max_retx : Z;
+  o_tmp_buf_len : Z;              (* this_poll.tmp_buf.len() = max_ss at creation + UTP_HEADER *)
 }.
 
 Inductive bug_site :=
